@@ -160,8 +160,9 @@ def h_brier(N):
         S.prove("reliability(10 bins, top edge inclusive)", S.same(got["BsRel"], t["rel"]), twin=S.same(got["BsRel"], t["rel"] + 1))
         S.prove("reliability=textbook-when-one-value-per-bin", S.implies(t["single"], S.same(got["BsRel"], t["rel_textbook"])))
         S.prove("bs=rel-res+unc-when-one-value-per-bin",
-                S.implies(t["single"], S.same(got["Bs"], got["BsRel"] - got["BsRes"] + got["BsUnc"])),
-                twin=S.implies(t["single"], S.same(got["Bs"], got["BsRel"] - got["BsRes"] + got["BsUnc"] + 1)))
+                # observed frequencies are concrete doubles on the path (1/3 is not exact): compare with a tolerance
+                S.implies(t["single"], S.close(got["Bs"], got["BsRel"] - got["BsRes"] + got["BsUnc"])),
+                twin=S.implies(t["single"], S.close(got["Bs"], got["BsRel"] - got["BsRes"] + got["BsUnc"] + 1)))
         S.prove("bss=(unc-bs)/unc", S.ite(und, S.isnan(got["Bss"]), S.same(got["Bss"], S.div(t["unc"] - t["bs"], t["unc"]))))
         S.prove("bssrel=rel/unc", S.ite(und, S.isnan(got["BssRel"]), S.same(got["BssRel"], S.div(t["rel"], t["unc"]))))
         S.prove("bssres=res/unc", S.ite(und, S.isnan(got["BssRes"]), S.same(got["BssRes"], S.div(t["res"], t["unc"]))))
